@@ -638,6 +638,7 @@ class CtxWalker:
 
     def __init__(self, rel, helpers, out):
         self.rel, self.helpers, self.out = rel, helpers, out
+        self.forwarded = set()
 
     def has_ctx(self, fnodes):
         for f in fnodes:
@@ -659,6 +660,11 @@ class CtxWalker:
             for st in node.body:
                 self.visit(st, fn + [node.name], fnodes, in_template)
             return
+        if isinstance(node, ast.Call) and any(k.arg == "ctx" for k in node.keywords):
+            # f(helper, ..., ctx=ctx): the helper is handed on together with the context
+            for a in node.args:
+                if isinstance(a, ast.Name) and a.id in self.helpers:
+                    self.forwarded.add(id(a))
         if isinstance(node, ast.Call):
             name = None
             method = False
@@ -686,7 +692,8 @@ class CtxWalker:
             for f in fnodes:
                 locs |= local_names(f)
             if node.id not in locs:
-                self.record(node, node.id, fn, fnodes, in_template, False, "reference", self.helpers[node.id])
+                self.record(node, node.id, fn, fnodes, in_template, id(node) in self.forwarded,
+                            "reference-with-ctx" if id(node) in self.forwarded else "reference", self.helpers[node.id])
             return
         if isinstance(node, ast.Constant) and isinstance(node.value, str) and in_template is not None:
             try:
@@ -782,7 +789,6 @@ def emit(an):
                G.cstr(x["file"]), G.cstr(x["fn"]), x["line"], x["kind"], x["arg"], coq_formula(x["cond"], an["atoms"]))
         )
     s += "Definition sinks : list sink :=\n  " + G.clist(rows, "sink") + ".\n"
-    rows = ["(%s, %s, %s)" % (G.cstr(w["file"]), G.cstr(w["fn"]), w["kind"]) for w in an["online_writes"]]
     rows = []
     for c in an["ctx_calls"]:
         rows.append("{| c_file := %s; c_fn := %s; c_callee := %s; c_line := %d; c_passes := %s; c_has_ctx := %s; c_risky := %s; c_default_none := %s |}"
@@ -790,6 +796,7 @@ def emit(an):
                        G.cbool(c["risky"]), G.cbool(c["default"] == "None")))
     s += "(* every call / bare reference of a helper whose `ctx` parameter has a default value *)\n"
     s += "Definition ctx_calls : list ctxcall :=\n  " + G.clist(rows, "ctxcall") + ".\n"
+    rows = ["(%s, %s, %s)" % (G.cstr(w["file"]), G.cstr(w["fn"]), w["kind"]) for w in an["online_writes"]]
     s += "(* every assignment to an attribute called `online` *)\n"
     s += "Definition online_writes : list (str * str * write_kind) :=\n  " + G.clist(rows, "(str * str * write_kind)") + ".\n"
     return s
